@@ -40,6 +40,8 @@ type RawRequest struct {
 	Query   string      `json:"query"`    // URL.RawQuery
 	Header  http.Header `json:"header"`
 	Body    []byte      `json:"body"`
+	// ContentLength overrides the declared length when non-zero (-1 = unknown / chunked).
+	ContentLength int64 `json:"content_length,omitempty"`
 }
 
 // FuzzCase is the replay unit of C15.
@@ -93,6 +95,9 @@ func (r RawRequest) build() *http.Request {
 		req.Header = http.Header{}
 	}
 	req.ContentLength = int64(len(r.Body))
+	if r.ContentLength != 0 {
+		req.ContentLength = r.ContentLength
+	}
 	return req
 }
 
@@ -114,7 +119,7 @@ func isJSON(r RawRequest) bool {
 }
 
 // mutate derives mutants of a valid request. seed steers the undirected ones.
-func mutate(base RawRequest, seed int, bodyRequired bool) []mutation {
+func mutate(base RawRequest, seed int, bodyRequired bool, scalarKeys []string, knownPaths bool) []mutation {
 	var out []mutation
 	add := func(name, expect string, f func(r *RawRequest)) {
 		r := base.clone()
@@ -162,7 +167,25 @@ func mutate(base RawRequest, seed int, bodyRequired bool) []mutation {
 		add("json-huge-number", "", func(r *RawRequest) { r.Body = bytes.Replace(r.Body, []byte("1"), []byte("1e999999"), 1) })
 		add("json-invalid-utf8", "", func(r *RawRequest) { r.Body = bytes.Replace(r.Body, []byte("\""), []byte("\"\xff\xfe"), 1) })
 	}
-	add("unknown-path", "404", func(r *RawRequest) { r.Path += "/zz-unknown-zz"; r.RawPath = "" })
+	if len(base.Body) > 0 {
+		// the same body with an unknown length (chunked upload) or an absurd declared one
+		add("content-length-unknown", "", func(r *RawRequest) { r.ContentLength = -1 })
+		add("content-length-huge", "", func(r *RawRequest) { r.ContentLength = 1 << 62 })
+		add("content-length-too-small", "", func(r *RawRequest) { r.ContentLength = 1 })
+	}
+	// a second, different value under a key that carries ONE value (primitive parameter, object
+	// field, non-exploded array): the parameter cannot be decoded unambiguously
+	for _, k := range scalarKeys {
+		key := k
+		if strings.Contains("&"+base.Query+"&", "&"+url.QueryEscape(key)+"=") || strings.Contains("&"+base.Query+"&", "&"+key+"=") {
+			add("query-scalar-key-repeated:"+key, "400", func(r *RawRequest) { r.Query = r.Query + "&" + url.QueryEscape(key) + "=zz9" })
+		}
+	}
+	unknownExp := ""
+	if knownPaths {
+		unknownExp = "404" // the generated documents have no template that this path could instantiate
+	}
+	add("unknown-path", unknownExp, func(r *RawRequest) { r.Path = "/zz-unknown-zz" + r.Path + "/zz"; r.RawPath = "" })
 	add("unknown-method", "405", func(r *RawRequest) { r.Method = "BREW" })
 	add("method-lowercase", "405", func(r *RawRequest) { r.Method = strings.ToLower(r.Method) })
 	add("path-trailing-slash", "", func(r *RawRequest) { r.Path += "/"; r.RawPath = "" })
@@ -434,7 +457,39 @@ func fuzzPackage(u *vk.Unit, p *reg.Package, meta Meta, replay *FuzzCase, pkg st
 					bodyRequired = true
 				}
 			}
-			for _, mu := range mutate(base, seed, bodyRequired) {
+			var scalarKeys []string
+			for _, op := range meta.Doc.Ops {
+				if !strings.EqualFold(op.ID, m.Name) {
+					continue
+				}
+				for _, prm := range op.Params {
+					if prm.In != "query" || prm.Schema == nil {
+						continue
+					}
+					explode := prm.Explode == nil || *prm.Explode
+					switch prm.Schema.Type {
+					case "array":
+						if !explode {
+							scalarKeys = append(scalarKeys, prm.Name)
+						}
+					case "object":
+						for _, f := range prm.Schema.Props {
+							switch {
+							case prm.Style == "deepObject":
+								scalarKeys = append(scalarKeys, prm.Name+"["+f.Name+"]")
+							case explode:
+								scalarKeys = append(scalarKeys, f.Name)
+							}
+						}
+						if prm.Style != "deepObject" && !explode {
+							scalarKeys = append(scalarKeys, prm.Name)
+						}
+					default:
+						scalarKeys = append(scalarKeys, prm.Name)
+					}
+				}
+			}
+			for _, mu := range mutate(base, seed, bodyRequired, scalarKeys, meta.Name == "") {
 				mkState(false)
 				u.Eval(1)
 				f := judge(mu.name, mu.expect, mu.req, false)
